@@ -337,33 +337,55 @@ fn enumerate_dbs(th: &Theory, fam: &Family, max_rows_per_rel: usize, cap: usize)
         }
         per_rel.push(subsets);
     }
-    // product, ordered by total size
+    // product, ordered by total number of rows (so that a cap cuts off the largest databases only):
+    // for each total, every composition of it into per-relation subset sizes, every choice of subsets of those sizes
+    let mut by_size: Vec<Vec<Vec<usize>>> = Vec::new(); // relation -> size -> indices into per_rel[k]
+    for subsets in &per_rel {
+        let mut v: Vec<Vec<usize>> = vec![vec![]; max_rows_per_rel + 1];
+        for (i, sub) in subsets.iter().enumerate() { v[sub.len()].push(i); }
+        by_size.push(v);
+    }
     let mut out = Vec::new();
     let mut capped = false;
-    let mut idx = vec![0usize; rels.len()];
-    'outer: loop {
-        for ec in &elem_choices {
-            let mut db = LabelledDb { elem_new: vec![vec![]; th.types.len()], tuples: vec![vec![]; th.rels.len()] };
-            for (k, &t) in tys.iter().enumerate() { db.elem_new[t] = ec[k].clone(); }
-            for (k, &r) in rels.iter().enumerate() { db.tuples[r] = per_rel[k][idx[k]].clone(); }
-            // a tuple cannot be older than one of its elements
-            let consistent = db.tuples.iter().enumerate().all(|(r, rows)| rows.iter().all(|(row, is_new)| *is_new || row.iter().enumerate().all(|(p, &x)| !db.elem_new[th.rels[r].arity[p]][x as usize])));
-            if !consistent { continue; }
-            out.push(db);
-            if out.len() >= cap { capped = true; break 'outer; }
+    let max_total = max_rows_per_rel * rels.len();
+    'outer: for total in 0..=max_total {
+        // compositions of `total` into rels.len() parts, each <= max_rows_per_rel
+        let mut comp = vec![0usize; rels.len()];
+        let mut comps: Vec<Vec<usize>> = Vec::new();
+        fn rec(k: usize, left: usize, maxp: usize, comp: &mut Vec<usize>, out: &mut Vec<Vec<usize>>) {
+            if k == comp.len() { if left == 0 { out.push(comp.clone()); } return; }
+            for s in 0..=left.min(maxp) { comp[k] = s; rec(k + 1, left - s, maxp, comp, out); }
         }
-        let mut k = 0;
-        loop {
-            if k == rels.len() { break 'outer; }
-            idx[k] += 1;
-            if idx[k] < per_rel[k].len() { break; }
-            idx[k] = 0; k += 1;
+        rec(0, total, max_rows_per_rel, &mut comp, &mut comps);
+        for c in comps {
+            let lists: Vec<&Vec<usize>> = c.iter().enumerate().map(|(k, &sz)| &by_size[k][sz]).collect();
+            if lists.iter().any(|l| l.is_empty()) { continue; }
+            let mut pos = vec![0usize; rels.len()];
+            'prod: loop {
+                for ec in &elem_choices {
+                    let mut db = LabelledDb { elem_new: vec![vec![]; th.types.len()], tuples: vec![vec![]; th.rels.len()] };
+                    for (k, &t) in tys.iter().enumerate() { db.elem_new[t] = ec[k].clone(); }
+                    for (k, &r) in rels.iter().enumerate() { db.tuples[r] = per_rel[k][lists[k][pos[k]]].clone(); }
+                    // a tuple cannot be older than one of its elements
+                    let consistent = db.tuples.iter().enumerate().all(|(r, rows)| rows.iter().all(|(row, is_new)| *is_new || row.iter().enumerate().all(|(p, &x)| !db.elem_new[th.rels[r].arity[p]][x as usize])));
+                    if !consistent { continue; }
+                    out.push(db);
+                    if out.len() >= cap { capped = true; break 'outer; }
+                }
+                let mut k = 0;
+                loop {
+                    if k == rels.len() { break 'prod; }
+                    pos[k] += 1;
+                    if pos[k] < lists[k].len() { break; }
+                    pos[k] = 0; k += 1;
+                }
+            }
         }
     }
     (out, capped)
 }
 
-pub fn run_theory(th: &Theory, e: &Entry, max_rows: usize, cap: usize) -> C16Result {
+pub fn run_theory(th: &Theory, e: &Entry, max_rows: usize, cap: usize, skip_functionality: bool) -> C16Result {
     let mut res = C16Result { families: 0, dbs: 0, nontrivial: 0, violations: vec![], samples: vec![], capped: false };
     let fams = match parse_families(th, e.generated) {
         Ok(f) => f,
@@ -372,6 +394,9 @@ pub fn run_theory(th: &Theory, e: &Entry, max_rows: usize, cap: usize) -> C16Res
     let mut sigs: BTreeSet<String> = BTreeSet::new();
     for fam in &fams {
         if fam.subs[0].premise.is_empty() { continue; }
+        // corpus S repeats one signature 180 times: the databases of the implicit functionality rules are
+        // enumerated there only in the thorough tier (they are still *checked* against every database of the other families)
+        if skip_functionality && fam.functionality { continue; }
         res.families += 1;
         for msg in check_family_text(fam) {
             res.violations.push(json!({"sig": format!("{}:c16:text:{}", th.name, fam.name), "summary": format!("[{}] {}", th.name, msg), "replay": {"theory": th.name, "family": fam.name, "static": true}}));
